@@ -172,10 +172,54 @@ pub fn stmtcase(c: &J) -> J {
 
 /// C15: two registers of SelectStatement. {"id","calls":[call...], "refs": {step: [calls]}}; a call may carry
 /// "reg": 2 to address the second register; special ops: take (s2 = s1.take()), clone (s2 = s1.clone()).
+/// A builder that offers take / clone / clear operations (C15).
+pub trait Reg: Clone + PartialEq {
+    fn fresh() -> Self;
+    fn apply(&mut self, c: &J);
+    fn take_(&mut self) -> Self;
+    fn render(&self) -> J;
+}
+impl Reg for SelectStatement {
+    fn fresh() -> Self { SelectStatement::new() }
+    fn apply(&mut self, c: &J) { stmt::apply_select(self, c) }
+    fn take_(&mut self) -> Self { self.take() }
+    fn render(&self) -> J { inline_only(self) }
+}
+impl Reg for UpdateStatement {
+    fn fresh() -> Self { UpdateStatement::new() }
+    fn apply(&mut self, c: &J) { stmt::apply_update(self, c) }
+    fn take_(&mut self) -> Self { panic!("UpdateStatement has no take()") }
+    fn render(&self) -> J { inline_only(self) }
+}
+impl Reg for DeleteStatement {
+    fn fresh() -> Self { DeleteStatement::new() }
+    fn apply(&mut self, c: &J) { stmt::apply_delete(self, c) }
+    fn take_(&mut self) -> Self { panic!("DeleteStatement has no take()") }
+    fn render(&self) -> J { inline_only(self) }
+}
+impl Reg for WindowStatement {
+    fn fresh() -> Self { WindowStatement::new() }
+    fn apply(&mut self, c: &J) { stmt::apply_window(self, c) }
+    fn take_(&mut self) -> Self { self.take() }
+    fn render(&self) -> J {
+        inline_only(Query::select().expr_window(Func::sum(Expr::col(Alias::new("a"))), self.clone()).from(Alias::new("t1")))
+    }
+}
+
 pub fn histcase(c: &J) -> J {
+    match c.get("kind").and_then(|k| k.as_str()).unwrap_or("select") {
+        "select" => hist_of::<SelectStatement>(c, "select"),
+        "update" => hist_of::<UpdateStatement>(c, "update"),
+        "delete" => hist_of::<DeleteStatement>(c, "delete"),
+        "window" => hist_of::<WindowStatement>(c, "window"),
+        k => panic!("hist kind {k}"),
+    }
+}
+
+fn hist_of<R: Reg>(c: &J, kind: &str) -> J {
     let calls = c["calls"].as_array().unwrap();
-    let mut s1 = Query::select();
-    let mut s2 = Query::select();
+    let mut s1 = R::fresh();
+    let mut s2 = R::fresh();
     let mut steps: Vec<J> = vec![];
     let r = guarded(|| {
         for (i, call) in calls.iter().enumerate() {
@@ -186,12 +230,12 @@ pub fn histcase(c: &J) -> J {
             match op {
                 "take" => {
                     let pre = s1.clone();
-                    let pre_r = inline_only(&pre);
-                    let taken = s1.take();
+                    let pre_r = pre.render();
+                    let taken = s1.take_();
                     o["taken_eq_pre"] = json!(taken == pre);
-                    o["left_eq_new"] = json!(s1 == SelectStatement::new());
+                    o["left_eq_new"] = json!(s1 == R::fresh());
                     o["render_pre"] = pre_r;
-                    o["render_taken"] = inline_only(&taken);
+                    o["render_taken"] = taken.render();
                     s2 = taken;
                 }
                 "clone" => {
@@ -200,30 +244,30 @@ pub fn histcase(c: &J) -> J {
                 }
                 _ => {
                     if call["reg"].as_u64() == Some(2) {
-                        stmt::apply_select(&mut s2, call);
+                        s2.apply(call);
                         o["other_unchanged"] = json!(s1 == snap1);
                     } else {
-                        stmt::apply_select(&mut s1, call);
+                        s1.apply(call);
                         o["other_unchanged"] = json!(s2 == snap2);
                     }
                 }
             }
-            o["r1"] = inline_only(&s1);
-            o["r2"] = inline_only(&s2);
+            o["r1"] = s1.render();
+            o["r2"] = s2.render();
             o["eq12"] = json!(s1 == s2);
             if let Some(refcalls) = c["refs"].get((i + 1).to_string()) {
-                let mut rs = Query::select();
+                let mut rs = R::fresh();
                 for rc in refcalls.as_array().unwrap() {
-                    stmt::apply_select(&mut rs, rc);
+                    rs.apply(rc);
                 }
-                o["ref"] = inline_only(&rs);
+                o["ref"] = rs.render();
                 o["ref_eq"] = json!(rs == s1);
             }
             steps.push(o);
         }
         J::Null
     });
-    let mut out = json!({"id": c["id"], "calls": c["calls"], "refs": c["refs"], "steps": steps});
+    let mut out = json!({"id": c["id"], "kind": kind, "calls": c["calls"], "refs": c["refs"], "steps": steps});
     if r.get("panic").is_some() {
         out["panic"] = r;
     }
